@@ -157,8 +157,8 @@ def real_eval(case):
     return obs
 
 
-def check_case(ctx, res, case, label='gen'):
-    obs = real_eval(case)
+def check_case(ctx, res, case, label='gen', obs=None):
+    obs = obs if obs is not None else real_eval(case)
     res.count({'nodes': case['nodes'], 'roots': case['roots'], 'rows': len(case['rows'])}, nontrivial=G.nontrivial(case))
     for k in G.kinds_in(case):
         res.tally('kind:' + k)
@@ -207,16 +207,21 @@ def check_case(ctx, res, case, label='gen'):
             res.diverge(f'signature not decodable: {e}', small, None, o['signature'][:5])
             continue
         cols = o.get('columns') or case['columns']
+        sig_text = list(o['signature'])
+        nums = num_table(sig_text)
+        plain = True   # since fix d509bfb the writer replaces ',' and '"' in names: every name is read back
         reqs = [{'op': 'prepare', 'decls': [{'name': n['name'], 'fixed': bool(n.get('fixed')), 'init': f2b(n['v'])} for n in case['nodes'] if n['k'] == 'beta'], 'cols': list(case['columns'])},
                 {'op': 'emit', 'dag': jnodes, 'table': table, 'root': r}]
         for row in rows:
             ee = {'free': [f2b(v) for v in o['free']], 'fixed': [f2b(v) for v in o['fixed']], 'row': [f2b(row[c]) for c in cols]}
             reqs.append({'op': 'evalall', 'dag': jnodes, 'env': G.env_json(bv, row), 'table': table, 'ee': ee, 'root': r})
             reqs.append({'op': 'runsig', 'lines': G.lines_to_json(lines), 'ee': ee, 'root': lines[-1]['id']})
+            reqs.append({'op': 'runtext', 'text': sig_text, 'nums': nums, 'ee': ee, 'root': lines[-1]['id']})
+        reqs.append({'op': 'parsetext', 'text': sig_text, 'nums': nums})
         py_req = {'op': 'eval', 'dag': jnodes, 'env': G.env_json(G.beta_values(case, use_dict=False), {}), 'sem': 'py', 'root': r}
         reqs.append(py_req)
 
-        def cb(ans, o=o, small=small, lines=lines, table=table, expected=expected, where=where):
+        def cb(ans, o=o, small=small, lines=lines, table=table, expected=expected, where=where, plain=plain):
             prep, emit = ans[0], ans[1]
             if 'duplicates' in prep:
                 res.diverge('model prepare refuses, library accepts', small, prep, table, where=where)
@@ -231,14 +236,28 @@ def check_case(ctx, res, case, label='gen'):
             if real_c != model_c:
                 res.diverge('signature (Engine.emit vs get_signature): denoted formula / sharing / definition order', small,
                             str(model_c)[:400], str(real_c)[:400], where=where)
-            body = ans[2:-1]
+            body = ans[2:-2]
+            # the REAL text read by the model of the engine's reader (Sig.parseLine) vs the independent Python decoder
+            parsed = ans[-2]
+            res.tally('text_lines', len(parsed))
+            if plain:
+                lean_lines = [None if l is None else _strip(_unjson(l)) for l in parsed]
+                py_lines = [_strip(l) for l in lines]
+                if lean_lines != py_lines:
+                    bad = next((i for i, (a, b) in enumerate(zip(lean_lines, py_lines)) if a != b), None)
+                    res.diverge('signature text: Sig.parseLine (model of bioFormula::processFormula) vs the independent decoder', small,
+                                str(lean_lines[bad] if bad is not None else len(lean_lines))[:300],
+                                str(py_lines[bad] if bad is not None else len(py_lines))[:300] + ' text=' + (o['signature'][bad] if bad is not None else ''), where=where)
             for i in range(len(rows)):
-                ev, rs = body[2 * i], body[2 * i + 1]
+                ev, rs, rt = body[3 * i], body[3 * i + 1], body[3 * i + 2]
                 real = o['values'][i]
-                for key, a in (('run (model of emit+load+run on the model lines)', ev.get('run')), ('engine semantics by name', ev.get('byname')),
-                               ('mathematical value (semMath)', ev.get('math')), ('REAL signature loaded and run by the model', rs)):
+                views = [('REAL signature TEXT parsed by Sig.parseLine, loaded and run by the model', rt)]
+                if plain:
+                    views += [('run (model of emit+load+run on the model lines)', ev.get('run')), ('engine semantics by name', ev.get('byname')),
+                              ('mathematical value (semMath)', ev.get('math')), ('REAL signature loaded and run by the model', rs)]
+                for key, a in views:
                     if a is None or 'ok' not in a:
-                        if expected[i] is not None:
+                        if expected[i] is not None or not plain:
                             res.diverge(f'{key}: model gives {a}', {**small, 'row': i}, a, real, where=where)
                         continue
                     if not core.close(b2f(a['ok']), real, rel=TOL):
@@ -255,6 +274,69 @@ def check_case(ctx, res, case, label='gen'):
 
         ctx.batch.add_many(reqs, cb)
     return obs
+
+
+def num_table(sig_text):
+    """the reading of every comma-separated token as a double (Python float, standing for std::stod)"""
+    out = {}
+    for line in sig_text:
+        for tok in line.split(',')[1:]:
+            if tok not in out:
+                try:
+                    out[tok] = f2b(float(tok))
+                except ValueError:
+                    pass
+    return [[k, v] for k, v in out.items()]
+
+
+# names the signature text has to carry between quotation marks / commas
+SPECIAL = ['x 1', 'x(1', 'x)1', 'x<1', 'x>1', 'x{1}', 'x[1]', "x'1", 'x;1', 'x=1', 'é1', '1x', 'x,1', 'b,7', 'x"1', 'a"b"c', ',', 'x,']
+
+
+def special_names(case):
+    return any(n['k'] in ('beta', 'var') and any(ch in n['name'] for ch in ',"') for n in (case or {}).get('nodes', []))
+
+
+def rename_case(case, old, new):
+    c = json.loads(json.dumps(case))
+    for n in c['nodes']:
+        if n.get('name') == old:
+            n['name'] = new
+    c['columns'] = [new if x == old else x for x in c['columns']]
+    if old in c.get('dict', {}):
+        c['dict'][new] = c['dict'].pop(old)
+    return c
+
+
+def iso_real_eval(case):
+    """fresh interpreter: a name the engine cannot read raises inside the engine, which poisons the process"""
+    import tempfile
+    with core.scratch():
+        return real_eval(case)
+
+
+def special_stream(ctx, res, rng, n):
+    from multiprocessing.pool import ThreadPool
+    cases = []
+    for i in range(n):
+        case = G.gen_case(rng, n_ops=rng.randint(1, 5), n_rows=rng.randint(1, 3))
+        names = sorted({nd['name'] for nd in case['nodes'] if nd['k'] in ('beta', 'var')})
+        if not names:
+            continue
+        new = SPECIAL[i % len(SPECIAL)]
+        if new in names or new in case['columns']:
+            continue
+        cases.append(rename_case(case, rng.choice(names), new))
+    with ThreadPool(12) as pool:
+        obs = pool.map(lambda c: core.run_isolated('props.c01', 'iso_real_eval', c, timeout=300), cases)
+    for case, o in zip(cases, obs):
+        res.tally('special_name:' + ('comma/quote' if special_names(case) else 'other'))
+        if '__error__' in o:
+            res.violate(f'engine evaluation of a valid formula crashes the process: {o}'[:300],
+                        {'nodes': case['nodes'], 'roots': case['roots'], 'columns': case['columns'], 'rows': case['rows'], 'dict': case.get('dict', {})},
+                        str(o)[:200], 'a number', where=known_where(case))
+            continue
+        check_case(ctx, res, case, 'special', obs=o)
 
 
 def _unjson(l):
@@ -279,9 +361,14 @@ def _canon_sig(lines):
     return (tree(lines[-1]['id']) if lines else None, len(defs), ordered_ok)
 
 
+def _signame(name):
+    """Elementary.signature_name (Sig.sanitize in the model)"""
+    return name.replace(',', ';').replace('"', "'")
+
+
 def _strip(l):
     elementary = l['k'] in ('beta', 'var')
-    return {'k': l['k'], 'id': l['id'], 'c': l['c'], 'name': l['name'] if elementary else '', 'status': l['status'] if l['k'] == 'beta' else 0,
+    return {'k': l['k'], 'id': l['id'], 'c': l['c'], 'name': _signame(l['name']) if elementary else '', 'status': l['status'] if l['k'] == 'beta' else 0,
             'uid': l['uid'] if elementary else 0, 'slot': l['slot'] if elementary else 0,
             'v': f2b(l['v']) if l['k'] in ('num', 'powConst') else 0, 'keys': l['keys'], 'members': sorted(f2b(m) for m in l['members'])}
 
@@ -306,7 +393,7 @@ def wide_member(case):
     return False
 
 
-MATCHERS = {'shared_condition': shared_condition, 'wide_member': wide_member}
+MATCHERS = {'shared_condition': shared_condition, 'wide_member': wide_member, 'special_names': special_names}
 
 
 def known_where(case):
@@ -420,6 +507,7 @@ def check(ctx) -> Result:
             break
     for _ in range(ctx.n(6, 80)):
         simulate_check(ctx, res, rng)
+    special_stream(ctx, res, rng, ctx.n(36, 360))
     ctx.batch.flush()
     return res
 
